@@ -102,6 +102,10 @@ def pattern_settings():
         mk([C([1]), C([1]), C([1])], [C(min_=0, rep=False), C(min_=0, rep=False)], name='partitioning transposed'),
         mk([C(min_=0, rep=False), C(min_=0, rep=False)], [C([1]), C([0, 1])], name='mixed 1 / 0..1 targets'),
         mk([C(min_=0, rep=False)], [C([0, 1]), C([0, 1]), C([0, 1])], name='down-selecting 1x3'),
+        mk([C(min_=1, rep=False), C(min_=1, rep=False), C(min_=1, rep=False)], [C([0, 1]), C([0, 1]), C([0, 1])],
+           name='partitioning covering optional 3x3'),
+        mk([C(min_=1, rep=False), C(min_=1, rep=False)], [C([0, 1]), C([0, 1]), C([0, 1])], name='partitioning covering optional 2x3'),
+        mk([C(min_=2, rep=False)], [C([1]), C([1]), C([1])], name='partitioning min 2 1x3'),
         mk([C(min_=0, rep=False), C(min_=0, rep=False), C(min_=0, rep=False)],
            [C(min_=0, rep=False), C(min_=0, rep=False), C(min_=0, rep=False)], excluded=[(0, 0), (1, 1), (2, 2)], name='connecting directed'),
         mk([C([1]), C([1]), C([1])], [C([1]), C([1]), C([1])], name='permuting 3x3'),
@@ -331,7 +335,12 @@ def run_instance(inst, tier='quick', seed=0):
         if k_pat == 0:
             tracer.__enter__()
         try:
-            ex = explore(run, max_paths=20000, time_cap_s=INSTANCE_CAP_S/2, fanout_cap=200)
+            # budgets: the quick tier only runs instances with an estimated <= QUICK_PATH_BUDGET paths; a run that needs far
+            # more than its estimate (e.g. a clamp that no longer clamps makes the case split endless) is cut short
+            if tier == 'quick':
+                ex = explore(run, max_paths=max(400, 4*est), time_cap_s=30, fanout_cap=40)
+            else:
+                ex = explore(run, max_paths=20000, time_cap_s=INSTANCE_CAP_S/2, fanout_cap=200)
         finally:
             if k_pat == 0:
                 tracer.__exit__()
